@@ -72,13 +72,12 @@ func runHistory(t *rapid.T, tr *ce.Tree, steps []ce.Step, opt ce.EnvOpt) (*ce.Se
 				st.invalid++
 			}
 			// resolve storage status the property leaves open
-			if sel.Murky[n] {
-				resolveMurky(env, sel, tr)
-			}
+			// (also when n itself is not open: the orphans it releases may be)
+			resolveMurky(env, sel, tr)
 			// no orphan may stay behind once its parent's data is stored
 			for o := range sel.Orphan {
 				if sel.Arrived[o.Parent] {
-					t.Fatalf("step %d %s: model bug: orphan node%d with arrived parent", i, s, o.Idx)
+					t.Fatalf("VERIF-INFRA: step %d %s: model self-check: orphan node%d with arrived parent", i, s, o.Idx)
 				}
 			}
 			for _, d := range out.Drained {
@@ -147,8 +146,7 @@ func resolveMurky(env *ce.Env, sel *ce.Sel, tr *ce.Tree) {
 			continue
 		}
 		if have, _ := env.Chain.HaveBlock(&h); have && (sel.Arrived[n.Parent]) {
-			delete(sel.Murky, n)
-			sel.Arrived[n] = true
+			sel.ResolvedArrived(n)
 		}
 	}
 }
